@@ -94,21 +94,6 @@ def parseUserAlphabet (t : String) : Option UserAlphabet :=
   let d := parseDictTok t
   some (fun a => (d.get? (String.singleton a.toChar)).map String.toList)
 
-/-- reduced sequence + alphabet for (size, user alphabet) as `reduce_alphabet` does -/
-def reduceSeq (cfg : Cfg) (size : Option Nat) (ua : Option UserAlphabet) (s : Seq) : Except Err (Seq × List AA) :=
-  match ua with
-  | some u =>
-    match userAlphabetMap u with
-    | none => .error .badAlphabet
-    | some f => .ok (s.map f, userAlphabetLetters f)
-  | none =>
-    match size with
-    | none => .error .badAlphabetSize
-    | some k =>
-      match cfg.reduceTab k, cfg.alphabetTab k with
-      | some f, some al => .ok (s.map f, al)
-      | _, _ => .error .badAlphabetSize
-
 def posRow (s : Seq) : List Rat := (positions1N s.length).map (fun (n : Nat) => (n : Rat))
 
 def seqQuery (cfg : Cfg) (name : String) (s : Seq) (args : List String) : String :=
@@ -170,13 +155,13 @@ def seqQuery (cfg : Cfg) (name : String) (s : Seq) (args : List String) : String
   | "titr", [] => outNats (titrCounts s ++ [s.count AA.P, s.length])
   -- C12
   | "reduce", [size, ua] =>
-    outExcept (fun r => s!"red {r.1.toString} {(r.2 : Seq).toString}") (reduceSeq cfg size.toNat? (parseUserAlphabet ua) s)
+    outExcept (fun r => s!"red {r.1.toString} {(r.2 : Seq).toString}") (reduceSeq cfg.reduceTab cfg.alphabetTab size.toNat? (parseUserAlphabet ua) s)
   -- C11: cplx <type> <size> <ua> <w> <step> <wordSize>
   | "cplx", [typ, size, ua, w, st, ws] =>
     let w := w.toNat!; let st := st.toNat!; let ws := ws.toNat!
     if ¬ (typ == "WF" ∨ typ == "LC" ∨ typ == "LZW") then outExc .badComplexityType
     else if s.length < w then outExc .windowTooLong
-    else match reduceSeq cfg size.toNat? (parseUserAlphabet ua) s with
+    else match reduceSeq cfg.reduceTab cfg.alphabetTab size.toNat? (parseUserAlphabet ua) s with
       | .error e => outExc e
       | .ok (rs, al) =>
         let wsx := windowsStep w st rs
